@@ -351,7 +351,13 @@ class SimNet:
             # like real unnamed unix client sockets: every client's name is the empty string
             c_sock, c_peer, s_sock, s_peer = "", addr, addr, ""
         else:
-            eph = (addr[0], 40000 + k)
+            if ":" in addr[0]:
+                # IPv6: socket names are 4-tuples (host, port, flowinfo, scope_id)
+                addr = (addr[0].split("%")[0], addr[1], 0, 2 if "%" in addr[0] else 0)
+                eph = (addr[0], 40000 + k, 0, addr[3])
+                self.stats["probe:ipv6_connection"] += 1
+            else:
+                eph = (addr[0], 40000 + k)
             c_sock, c_peer, s_sock, s_peer = eph, addr, addr, eph
         ct = SimTransport(self, loop, cproto, "client", extra={"peername": c_peer, "sockname": c_sock, "socket": None})
         sproto = factory()
